@@ -232,7 +232,16 @@ impl Query {
 		}
 		if rng.chance(1, 5) && !sc.chans.is_empty() {
 			for _ in 0..1 + rng.below(3) {
-				q.excluded.push(1000 + rng.below(sc.chans.len() as u64));
+				// previously failed channels of every kind: announced, route-hint, payer's own first hops
+				let pick = match rng.below(4) {
+					0 if !q.hints.is_empty() => q.hints[rng.below(q.hints.len() as u64) as usize][0].scid,
+					1 if q.first.as_ref().map(|f| !f.is_empty()).unwrap_or(false) => {
+						let f = q.first.as_ref().unwrap();
+						f[rng.below(f.len() as u64) as usize].scid
+					},
+					_ => 1000 + rng.below(sc.chans.len() as u64),
+				};
+				q.excluded.push(pick);
 			}
 		}
 		if sc.slack {
@@ -343,7 +352,7 @@ fn first_hop_details(fh: &FirstHop, peer: PublicKey, idx: u64) -> ChannelDetails
 		is_channel_ready: true,
 		channel_shutdown_state: None,
 		is_usable: true,
-		is_announced: true,
+		is_announced: fh.scid % 2 == 0,
 		inbound_htlc_minimum_msat: None,
 		inbound_htlc_maximum_msat: None,
 		config: None,
@@ -770,7 +779,7 @@ fn validate(ctx: &Ctx, rep: &mut Report, sc: &Scenario, q: &Query, route: &Route
 		rep.count("joint_max_rule_evaluations");
 		if *amt_used > *hard_max {
 			// only legitimate when explained by amounts raised to meet a later minimum (reported as fees)
-			if *amt_used > hard_max.saturating_add(raised_total).saturating_add(total_fee) {
+			if raised_total == 0 || *amt_used > hard_max.saturating_add(raised_total).saturating_add(total_fee) {
 				ctx.violate(rep, "V3-max", "channel carries more than min(htlc_maximum, capacity) counted jointly over the paths", sc, q, format!("scid={} dir={} carried={} max={}", scid, dir, amt_used, hard_max));
 			} else {
 				rep.count("joint_max_exceeded_within_raised_slack");
